@@ -159,7 +159,8 @@ def segments_to_contours(ops):
                 cur.append((args[-1][0], args[-1][1], True))
         elif op in ("closePath", "endPath"):
             if cur is not None:
-                if len(cur) > 1 and cur[-1] == cur[0]:
+                # explicit closing point == start point (up to the 16.16 / two-decimal re-encoding noise of unrounded CFF operands)
+                if len(cur) > 1 and cur[-1][2] and cur[0][2] and abs(cur[-1][0] - cur[0][0]) < 0.02 and abs(cur[-1][1] - cur[0][1]) < 0.02:
                     cur = cur[:-1]
                 out.append(cur)
             cur = None
